@@ -684,7 +684,7 @@ func (l *lexer) lexHeredoc() action {
 			if l.word[i].Pos().Col() == 1 {
 				if s := l.print(l.word[i:]); strings.ContainsRune(s, '\n') {
 					break
-				} else if s == delim {
+				} else if s == delim || (r.Op == "<<-" && strings.TrimLeft(s, "\t") == delim) {
 					r.Heredoc = l.word[:i]
 					r.Delim = l.word[i:]
 					l.word = nil
